@@ -1,3 +1,126 @@
+import Mhd.Model.WSDecode
 import Driver.Common
-/- stub: replaced by the builder of this engine -/
-def main : IO Unit := Driver.runEngine () (fun s _ => (s, ["bad-op"]))
+/-!
+  Model driver of engine `ws` (C19): same line protocol as harness/h_ws.c.
+  Environment variable `WS_LEGACY=1` selects the model of the code before the
+  fixes F7/F7c (used once to show that the check finds the defect on the old tree).
+-/
+open Mhd.WS Driver
+
+structure DSt where
+  ws : Option WS := none
+  lg : Bool := false
+
+def hex2 (n : Nat) : String := String.ofList [hexDigit (n / 16 % 16), hexDigit (n % 16)]
+
+def hex8 (n : Nat) : String :=
+  String.join ((List.range 4).map fun i => hex2 (n / 256 ^ (3 - i) % 256))
+
+def fnv (bs : List UInt8) : Nat :=
+  bs.foldl (fun h b => ((h ^^^ b.toNat) * 16777619) % 4294967296) 2166136261
+
+/-- payload / frame as printed by `put_payload` of the harness -/
+def showPayload (pl : Option (List UInt8)) (len : Nat) : String :=
+  match pl with
+  | none => if len = 0 then "null" else s!"null!len={len}"
+  | some buf =>
+    match buf[len]? with
+    | none => "oob"
+    | some t =>
+      let body := buf.take len
+      (if len > 256 then s!"#{len}:{hex8 (fnv body)}" else hexOfBytes body) ++ s!",t={t.toNat}"
+
+def showCall (c : Call) : String := s!" {c.st},{c.readLen},{showPayload c.pl c.plen}"
+
+def showEnc (r : EncRes) : String :=
+  if r.fault then "fault encoder-write-out-of-bounds" else s!"e {r.st} {showPayload r.frame r.len}"
+
+def stepLine (s : DSt) (ws : List String) : DSt × List String :=
+  let bad : DSt × List String := (s, ["bad-op"])
+  match ws with
+  | ["init", f, m, a, c] =>
+    match f.toNat?, m.toNat?, a.toNat?, c.toNat? with
+    | some f, some m, some a, some c =>
+      if f < 0x10000 ∧ m < 2 ^ 64 ∧ a < 2 ^ 64 ∧ 1 ≤ c ∧ c ≤ 4 then
+        match WS.init f m a with
+        | some w => ({ s with ws := some w }, ["init 0"])
+        | none => ({ s with ws := none }, ["init -4"])
+      else bad
+    | _, _, _, _ => bad
+  | ["rng", h] =>
+    match bytesOfHex h with
+    | some bs =>
+      match s.ws with
+      | some w => ({ s with ws := some { w with rng := w.rng ++ bs } }, ["ok"])
+      | none => (s, ["ok"])
+    | none => bad
+  | ["split_close", h] =>
+    match bytesOfHex h with
+    | some bs =>
+      let r := splitCloseReason bs
+      let rs := match r.reason with
+        | none => "null"
+        | some (off, b) => s!"{off}:{hexOfBytes b}"
+      (s, [s!"s {r.st} {r.code} {rs}"])
+    | none => bad
+  | ["utf8", h, st] =>
+    match bytesOfHex h, st.toNat? with
+    | some bs, some st =>
+      if st < 100 then
+        match checkUtf8 bs st 0 with
+        | .invalid o => (s, [s!"u 0 {st} {o}"])
+        | .ok s' => (s, [s!"u {if s' = 0 then 1 else 2} {s'} {bs.length}"])
+      else bad
+    | _, _ => bad
+  | _ =>
+    match s.ws with
+    | none => bad
+    | some w =>
+      match ws with
+      | ["feed", h] =>
+        match bytesOfHex h with
+        | some bs =>
+          let (w', calls, e) := feed s.lg w bs
+          match e with
+          | .fault site => ({ s with ws := some w' }, [s!"fault {site}"])
+          | _ =>
+            let tailS := if e = .stuck then " stuck" else ""
+            ({ s with ws := some w' }, ["f" ++ String.join (calls.map showCall) ++ tailS ++ s!" v={w'.validity}"])
+        | none => bad
+      | ["enc_text", h, fr, st] =>
+        match bytesOfHex h, fr.toNat?, (if st = "-" then some none else st.toNat?.map some) with
+        | some bs, some fr, some stp =>
+          if fr < 16 ∧ (stp.getD 0) ≤ 100 then
+            let (r, so) := encodeText w bs fr stp
+            ({ s with ws := some r.ws }, [showEnc r ++ s!" step={so.getD 0}"])
+          else bad
+        | _, _, _ => bad
+      | ["enc_bin", h, fr] =>
+        match bytesOfHex h, fr.toNat? with
+        | some bs, some fr =>
+          if fr < 16 then
+            let r := encodeBinary w bs fr
+            ({ s with ws := some r.ws }, [showEnc r])
+          else bad
+        | _, _ => bad
+      | ["enc_ping", h] =>
+        match bytesOfHex h with
+        | some bs => let r := encodePingPong w bs 9; ({ s with ws := some r.ws }, [showEnc r])
+        | none => bad
+      | ["enc_pong", h] =>
+        match bytesOfHex h with
+        | some bs => let r := encodePingPong w bs 10; ({ s with ws := some r.ws }, [showEnc r])
+        | none => bad
+      | ["enc_close", c, h] =>
+        match c.toNat?, bytesOfHex h with
+        | some c, some bs =>
+          if c < 65536 then let r := encodeClose w c bs; ({ s with ws := some r.ws }, [showEnc r])
+          else bad
+        | _, _ => bad
+      | ["valid?"] => (s, [s!"v={w.validity}"])
+      | ["invalidate"] => ({ s with ws := some { w with validity := 0 } }, ["ok"])
+      | _ => bad
+
+def main : IO Unit := do
+  let lg := (← IO.getEnv "WS_LEGACY") == some "1"
+  runEngine ({ lg := lg } : DSt) stepLine
